@@ -119,6 +119,8 @@ public:
 
 struct ClientResult {
 	bool connected = false, echoed = false, eof = false, early = false;
+	bool ux = false;
+	int mode = 0;
 	std::string token, got;
 };
 
@@ -263,6 +265,8 @@ static void run_history(const Hist& h)
 			bool u = ux && (!tcp || (i % 2));
 			int mode = (int)((uint64_t)(i * 37 + h.jseed) % 100) < h.early_pct ? 1 + (i % 2) : 0;
 			int pre = h.pattern == 1 ? (int)((i * 131) % 2000) : 0;
+			res[i].ux = u;
+			res[i].mode = mode;
 			ths.emplace_back(client_main, &res[i], u, port, path, mode, pre);
 		}
 	};
@@ -272,22 +276,52 @@ static void run_history(const Hist& h)
 	launch(r1, t1, h.n1, 0, "a");
 	for (auto& t : t1)
 		t.join();
-	// every connection established in phase 1 (also by clients that closed at once) is taken by the running accept loop and
-	// passed to serve(): wait for that (expected: milliseconds; 20 s bound), judged below
-	int connected1 = 0, served1 = 0;
+	// Every connection the server provably has in its accept queue is taken by the running accept loop and passed to serve():
+	// clients that got their echo (proved by the echo), early-closing clients on the Unix path (connect() returns only once the
+	// connection is queued, and it stays queued after the client closed), and early-closing TCP clients when the whole burst fits
+	// the listen backlog (beyond it Linux may drop the handshake's last ACK, and a connect-and-close client then never reaches
+	// the server at all - that is the kernel's doing, not judged). Wait for that (expected: milliseconds; 20 s bound), judged below.
+	int tcp_clients1 = 0;
 	for (auto& c : r1)
-		connected1 += c.connected;
+		tcp_clients1 += !c.ux;
+	std::vector<std::string> must_tokens; // early clients that sent their token before closing
+	int must_empty = 0;                   // clients that connected and closed without sending
+	for (auto& c : r1) {
+		if (!c.connected || !c.early)
+			continue;
+		if (!(c.ux || tcp_clients1 <= 30))
+			continue;
+		if (c.mode == 1)
+			must_tokens.push_back(c.token);
+		else
+			must_empty++;
+	}
+	std::string unserved;
+	auto settled = [&]() {
+		std::lock_guard<std::mutex> l(rec->m);
+		unserved.clear();
+		for (auto& t : must_tokens)
+			if (!rec->seen.count(t))
+				unserved = vf::str("the connection of early-closing client ", t, " (token sent, then closed)");
+		if (unserved.empty() && rec->empty_tokens < must_empty)
+			unserved = vf::str(must_empty - rec->empty_tokens, " of ", must_empty, " connections that were opened and closed without sending");
+		return unserved.empty();
+	};
 	{
 		double ts = vf::now();
-		while (vf::now() - ts < 20) {
-			{
-				std::lock_guard<std::mutex> l(rec->m);
-				served1 = rec->entries;
-			}
-			if (served1 >= connected1)
-				break;
+		while (!settled() && vf::now() - ts < 20)
 			usleep(500);
-		}
+	}
+	// a running server keeps accepting on every endpoint it is bound to: with no client in flight and an empty backlog, one
+	// probe connection per endpoint must be established, served and closed (30 s bound inside the client, expected: milliseconds)
+	ClientResult probe[2];
+	bool probed[2] = {false, false};
+	for (int ep = 0; ep < 2; ep++) {
+		if ((ep == 0 && !tcp) || (ep == 1 && !ux))
+			continue;
+		probed[ep] = true;
+		probe[ep].token = vf::str("probe", ep, "-", h.jseed % 100000);
+		client_main(&probe[ep], ep == 1, port, path, 0, 0);
 	}
 	// phase 2: clients in flight while stop(true) runs in its own thread
 	std::vector<ClientResult> r2;
@@ -366,6 +400,13 @@ static void run_history(const Hist& h)
 		sent[c.token] = &c;
 	for (int k = 0; k < 4; k++)
 		sent[vf::str("poke", k)] = &poke[k];
+	for (int ep = 0; ep < 2; ep++)
+		if (probed[ep]) {
+			sent[probe[ep].token] = &probe[ep];
+			if (err.empty() && !(probe[ep].connected && probe[ep].echoed && probe[ep].eof))
+				err = vf::str("the running server (no client in flight, nothing queued) did not serve a new connection on its ", ep ? "Unix path" : "TCP port",
+				              ": connected=", probe[ep].connected, " echoed=", probe[ep].echoed, " closed=", probe[ep].eof);
+		}
 	ClientResult p2;
 	sent["poke2"] = &p2;
 	if (err.empty())
@@ -406,9 +447,8 @@ static void run_history(const Hist& h)
 				err = vf::str("in-flight client ", c.token, " got a wrong echo: ", vf::show(c.got));
 				break;
 			}
-	if (err.empty() && served1 != connected1)
-		err = vf::str(connected1, " connections were established while the server was running, but serve() was entered ", served1,
-		              " times (20 s after the last client finished, before any stop request)");
+	if (err.empty() && !unserved.empty())
+		err = vf::str(unserved, " was established while the server was running but was not passed to serve() within 20 s (before any stop request)");
 	if (err.empty() && rec->bad_handle)
 		err = vf::str(rec->bad_handle, " serve() calls saw an invalid socket handle (on entry or on exit)");
 	if (err.empty() && !hung) {
